@@ -25,8 +25,10 @@ Record pcase := mkpcase {
   pc_colorder : bool;                (* false: a project with two or more group columns is present; on an empty input it appends its
                                         group columns in the iteration order of a Python set, which is not modelled: columns are then
                                         compared as a set and the cells BY NAME *)
-  pc_roworder : bool                 (* false: an order_rows sorts by ONE column with tied non-null values on its actual input; numpy's
-                                        default argsort is not stable, so the rows are compared as a multiset *)
+  pc_roworder : bool                 (* false: an order_rows sorts by ONE column with tied non-null values on its actual input (numpy's
+                                        default argsort is not stable), or the case contains an INNER merge and is compared a second
+                                        time (pandas lists the rows of an inner merge in an unspecified order): the rows are compared
+                                        as a multiset *)
 }.
 Definition frames_same (colorder roworder : bool) (m o : option table) : bool :=
   match m, o with
